@@ -84,6 +84,10 @@ AtAddr(b, a, n) ==              \* the bytes the file places at absolute address
   IF S = {} THEN <<>> ELSE LET k == CHOOSE k \in S : TRUE  o == ToNat(SubD(a, I[k].va))
                            IN SubSeq(I[k].mem, o + 1, Min2(Len(I[k].mem), o + n))
 
+FileBackedFrom(b, a) ==       \* how many of the bytes from absolute address a on are file-backed
+  LET I == Image(b)  S == {k \in DOMAIN I : InD(a, I[k].va, Digits(I[k].fs, 8))} IN
+  IF S = {} THEN 0 ELSE LET k == CHOOSE k \in S : TRUE IN I[k].fs - ToNat(SubD(a, I[k].va))
+
 (* ---- imports: the pointer-sized slots of the import address tables and the symbols they bind ---------------*)
 (* Import directory (data directory 1): 20-byte descriptors (ImportLookupTableRVA, TimeDateStamp, ForwarderChain,  *)
 (* NameRVA, ImportAddressTableRVA) up to an all-zero one; per descriptor the lookup table (or the address table   *)
